@@ -227,7 +227,11 @@ impl VisitMut for OptChainVisitor<'_> {
                                 if let MemberProp::Ident(method_ident) = &member_expr.prop {
                                     let prop_name = &method_ident.sym;
 
-                                    if self.csi_methods.get(prop_name).is_some() {
+                                    // a method of a `.prototype` object is not instrumented: unfolding the
+                                    // chain for it would report a modification without any hook call
+                                    if self.csi_methods.get(prop_name).is_some()
+                                        && !receiver_is_prototype(&member_expr.obj)
+                                    {
                                         self.found = true;
 
                                         expr.visit_mut_with(self);
@@ -267,6 +271,18 @@ impl OptChainVisitor<'_> {
             _ => {}
         }
     }
+}
+
+fn receiver_is_prototype(receiver: &Expr) -> bool {
+    let prop = match receiver {
+        Expr::Member(member) => Some(&member.prop),
+        Expr::OptChain(opt_chain) => match &*opt_chain.base {
+            OptChainBase::Member(member) => Some(&member.prop),
+            _ => None,
+        },
+        _ => None,
+    };
+    matches!(prop, Some(MemberProp::Ident(ident)) if ident.sym == "prototype")
 }
 
 pub struct OptChainTransform {}
